@@ -1,12 +1,15 @@
 import MemVerif.Lemmas.C01Ord
+import MemVerif.Lemmas.C01Small
 import MemVerif.Model.Pool
 /-!
 C01, list-implementation level: a uniform specification of the five list operations a pool uses
-(`allocate`, `allocate(n)`, `deallocate`, `deallocate(ptr, n)`, `insert`) for the two intrusive free lists
-(`free_memory_list`, `ordered_free_memory_list`), in terms of
+(`allocate`, `allocate(n)`, `deallocate`, `deallocate(ptr, n)`, `insert`) for all three free lists
+(`free_memory_list`, `ordered_free_memory_list`, `small_free_memory_list`), in terms of
 * `AnyList.cells` — the free cells of the list, in list order,
-* `AnyList.SInv` — the list's own structural invariant (`capacity = length`; `OrdList.Inv`),
-* `AnyList.obj` — the two proxy words of an ordered list (they live inside the pool object, not in a block).
+* `AnyList.SInv` — the list's own structural invariant (`capacity = length`; `OrdList.Inv`; `SmallOk`, which also
+  ties the chunks to the used blocks and the live nodes to the chunk grid),
+* `AnyList.blockCells` — the cells a new block is cut into,
+* `AnyList.obj` — the proxy words of an ordered / small list (they live inside the pool object, not in a block).
 -/
 namespace MemVerif.Model
 open MemVerif.Gen
@@ -17,29 +20,55 @@ namespace AnyList
 def cells : AnyList → List Nat
   | .free l => l.nodes
   | .ord l => l.nodes
-  | .small l => l.chunks.flatMap fun c => c.free.map fun i => c.base + chunkOff + i * l.ns
+  | .small l => l.cells
 
-/-- the words of the list object that the list's algorithms compare node addresses with: `[B, B + 16)` for the
-ordered list's two proxy nodes -/
-def obj : AnyList → Option Nat
-  | .ord l => some l.B
-  | _ => none
+/-- which list implementation a pool uses, with the address of the list object's proxy words (`[B, B + 16)`: the ordered
+list's two proxy nodes, the small list's proxy chunk header); the unordered list has none -/
+inductive ListObj
+  | unordered
+  | ordered (B : Nat)
+  | small (P : Nat)
+deriving Repr, DecidableEq
 
-/-- structural invariant of the list itself. (The small node list is not covered by this file: `False`.) -/
-def SInv : AnyList → Prop
+def ListObj.addr : ListObj → Option Nat
+  | .unordered => none
+  | .ordered B => some B
+  | .small P => some P
+
+def obj : AnyList → ListObj
+  | .ord l => .ordered l.B
+  | .small l => .small l.P
+  | .free _ => .unordered
+
+/-- structural invariant of the list itself, inside a pool that uses `used`, with the caller holding `live` -/
+def SInv (used : List Blk) (live : List (Nat × Nat)) : AnyList → Prop
   | .free l => l.cap = l.nodes.length
   | .ord l => l.Inv
-  | .small _ => False
+  | .small l => SmallOk l used live
+
+theorem SInv.mono {l : AnyList} {used used' : List Blk} {live : List (Nat × Nat)} (h : l.SInv used live)
+    (hsub : ∀ b ∈ used, b ∈ used') : l.SInv used' live := by
+  cases l with
+  | free fl => exact h
+  | ord ol => exact h
+  | small sl => exact SmallOk.mono h hsub
+
+/-- the cells a new block is cut into by `insert` -/
+def blockCells (l : AnyList) (b : Blk) : List Nat :=
+  match l with
+  | .small sl => smallBlockCells sl.ns b
+  | .free fl => blockNodes b.usable.base fl.ns (b.usable.size / fl.ns)
+  | .ord ol => blockNodes b.usable.base ol.ns (b.usable.size / ol.ns)
 
 /-- a byte range lies outside the list object's proxy words -/
-def OutObj (o : Option Nat) (a len : Nat) : Prop :=
-  match o with
+def OutObj (o : ListObj) (a len : Nat) : Prop :=
+  match o.addr with
   | none => True
   | some B => a + len ≤ B ∨ B + 16 ≤ a
 
-theorem OutObj.ord {l : OrdList} (hI : l.Inv) {m k : Nat} (h : OutObj (some l.B) m (k * l.ns)) : RunOut l m k := by
+theorem OutObj.ord {l : OrdList} (hI : l.Inv) {m k : Nat} (h : OutObj (.ordered l.B) m (k * l.ns)) : RunOut l m k := by
   have := hI.proxies
-  unfold OutObj at h
+  unfold OutObj ListObj.addr at h
   unfold RunOut
   omega
 
@@ -50,11 +79,32 @@ def CellsApart (l : AnyList) (m k : Nat) : Prop := ∀ y ∈ l.cells, y + l.node
 structure Same (l l' : AnyList) : Prop where
   ns : l'.nodeSize = l.nodeSize
   obj : l'.obj = l.obj
-  sinv : l'.SInv
+  blk : ∀ b, l'.blockCells b = l.blockCells b
+
+theorem Same.refl (l : AnyList) : Same l l := ⟨rfl, rfl, fun _ => rfl⟩
+
+/-- the cells of a block: pairwise apart, inside the block's usable part -/
+theorem blockCells_spec (l : AnyList) (hpos : 0 < l.nodeSize) (b : Blk) :
+    (l.blockCells b).Pairwise (Apart l.nodeSize) ∧
+      ∀ x ∈ l.blockCells b, b.usable.base ≤ x ∧ x + l.nodeSize ≤ b.usable.base + b.usable.size := by
+  cases l with
+  | free fl => exact ⟨blockNodes_pairwise _ _ _, CellInv.blockNodes_in (Nat.le_refl _) (Nat.le_refl _)⟩
+  | ord ol => exact ⟨blockNodes_pairwise _ _ _, CellInv.blockNodes_in (Nat.le_refl _) (Nat.le_refl _)⟩
+  | small sl =>
+    simp only [blockCells, nodeSize]
+    obtain ⟨hgs, hgin, _⟩ := smallInsertChunks_geo sl.ns b.usable.base b.usable.size
+    refine ⟨chunks_cells_apart sl.ns _ hgs, ?_⟩
+    intro x hx
+    unfold smallBlockCells at hx
+    obtain ⟨c, hc, hxc⟩ := List.mem_flatMap.mp hx
+    have h1 := (c.allCells_spec sl.ns).2 x hxc
+    have h2 := hgin c hc
+    omega
 
 /-- `allocate()` -/
-theorem allocate_spec {l l' : AnyList} {x : Nat} (hS : l.SInv) (h : l.allocate = some (l', x)) :
-    ∃ B, l.cells = x :: B ∧ l'.cells = B ∧ Same l l' := by
+theorem allocate_spec {l l' : AnyList} {used : List Blk} {live : List (Nat × Nat)} {x bytes : Nat}
+    (hS : l.SInv used live) (hb : bytes ≤ l.nodeSize) (h : l.allocate = some (l', x)) :
+    ∃ A B, l.cells = A ++ [x] ++ B ∧ l'.cells = A ++ B ∧ Same l l' ∧ l'.SInv used ((x, bytes) :: live) := by
   cases l with
   | free fl =>
     simp only [allocate] at h
@@ -70,7 +120,7 @@ theorem allocate_spec {l l' : AnyList} {x : Nat} (hS : l.SInv) (h : l.allocate =
       · rename_i z zs hn
         simp only [Option.some.injEq, Prod.mk.injEq] at hal
         obtain ⟨rfl, rfl⟩ := hal
-        refine ⟨zs, hn, rfl, rfl, rfl, ?_⟩
+        refine ⟨[], zs, by simpa [cells] using hn, rfl, ⟨rfl, rfl, fun _ => rfl⟩, ?_⟩
         simp only [SInv] at hS ⊢
         rw [hS, hn]; rfl
   | ord ol =>
@@ -82,13 +132,23 @@ theorem allocate_spec {l l' : AnyList} {x : Nat} (hS : l.SInv) (h : l.allocate =
       simp only [hal, Option.map_some, Option.some.injEq, Prod.mk.injEq] at h
       obtain ⟨rfl, rfl⟩ := h
       obtain ⟨xs, h1, h2, h3, h4, h5, _⟩ := OrdList.allocate_run ol ol' hS y hal
-      exact ⟨xs, h1, h2, h4, by simp [obj, h5], h3⟩
-  | small sl => exact absurd hS (by simp [SInv])
+      exact ⟨[], xs, by simpa [cells] using h1, h2, ⟨h4, by simp [obj, h5], fun b => by simp [blockCells, h4]⟩, h3⟩
+  | small sl =>
+    simp only [allocate] at h
+    cases hal : sl.allocate with
+    | none => simp [hal] at h
+    | some r =>
+      obtain ⟨sl', y⟩ := r
+      simp only [hal, Option.map_some, Option.some.injEq, Prod.mk.injEq] at h
+      obtain ⟨rfl, rfl⟩ := h
+      obtain ⟨A, B, h1, h2, h3, h4, h5⟩ := SmallList.allocate_spec (bytes := bytes) hS hb hal
+      exact ⟨A, B, h1, h2, ⟨h3, by simp [obj, h4], fun b => by simp [blockCells, h3]⟩, h5⟩
 
 /-- `allocate(n)` returning an address: a run of `cellsOf ns n` cells starting at the returned address leaves -/
-theorem allocateBytes_spec {l l' : AnyList} {x n : Nat} (hS : l.SInv) (hpos : 0 < l.nodeSize)
-    (h : l.allocateBytes n = some (l', some x)) :
-    ∃ A B, l.cells = A ++ blockNodes x l.nodeSize (cellsOf l.nodeSize n) ++ B ∧ l'.cells = A ++ B ∧ Same l l' := by
+theorem allocateBytes_spec {l l' : AnyList} {used : List Blk} {live : List (Nat × Nat)} {x n : Nat}
+    (hS : l.SInv used live) (hpos : 0 < l.nodeSize) (h : l.allocateBytes n = some (l', some x)) :
+    ∃ A B, l.cells = A ++ blockNodes x l.nodeSize (cellsOf l.nodeSize n) ++ B ∧ l'.cells = A ++ B ∧ Same l l' ∧
+      l'.SInv used ((x, n) :: live) := by
   by_cases hle : n ≤ l.nodeSize
   · -- node-sized: same as `allocate()`
     have hc : cellsOf l.nodeSize n = 1 := by simp [cellsOf, hle]
@@ -116,9 +176,9 @@ theorem allocateBytes_spec {l l' : AnyList} {x n : Nat} (hS : l.SInv) (hpos : 0 
           simp only [hal, Option.map_some, Option.some.injEq, Prod.mk.injEq] at h ⊢
           obtain ⟨rfl, h2⟩ := h
           exact ⟨rfl, h2⟩
-      | small sl => exact absurd hS (by simp [SInv])
-    obtain ⟨B, h1, h2, h3⟩ := allocate_spec hS hal
-    exact ⟨[], B, by rw [hc, blockNodes_one, h1]; rfl, by rw [h2]; rfl, h3⟩
+      | small sl => simp [allocateBytes] at h
+    obtain ⟨A, B, h1, h2, h3, h4⟩ := allocate_spec (bytes := n) hS hle hal
+    exact ⟨A, B, by rw [hc, blockNodes_one, h1], h2, h3, h4⟩
   · have hgt : l.nodeSize < n := by omega
     have hc : cellsOf l.nodeSize n = ceilNodes n l.nodeSize := by simp [cellsOf, hle]
     rw [hc]
@@ -147,7 +207,7 @@ theorem allocateBytes_spec {l l' : AnyList} {x n : Nat} (hS : l.SInv) (hpos : 0 
             rw [hsp.2.2] at hx
             simp only [Option.some.injEq] at hx
             subst hx
-            refine ⟨A, B, by rw [← hL]; exact hn, ?_, rfl, rfl, ?_⟩
+            refine ⟨A, B, by rw [← hL]; exact hn, ?_, ⟨rfl, rfl, fun _ => rfl⟩, ?_⟩
             · show fl.nodes.take start ++ fl.nodes.drop (start + len) = A ++ B
               rw [hsp.1, hsp.2.1]
             · simp only [SInv] at hS ⊢
@@ -164,16 +224,18 @@ theorem allocateBytes_spec {l l' : AnyList} {x n : Nat} (hS : l.SInv) (hpos : 0 
         simp only [hal, Option.map_some, Option.some.injEq, Prod.mk.injEq] at h
         obtain ⟨rfl, rfl⟩ := h
         obtain ⟨A, B, h1, h2, h3, h4, h5, _⟩ := OrdList.allocateBytes_run ol ol' hS n x hgt hal
-        exact ⟨A, B, h1, h2, h4, by simp [obj, h5], h3⟩
-    | small sl => exact absurd hS (by simp [SInv])
+        exact ⟨A, B, h1, h2, ⟨h4, by simp [obj, h5], fun b => by simp [blockCells, h4]⟩, h3⟩
+    | small sl => simp [allocateBytes] at h
 
-/-- `deallocate(ptr)` of a cell that is apart from the free cells and outside the list object -/
-theorem deallocate_spec (cfg : Cfg) {l : AnyList} {p : Nat} (hS : l.SInv) (hap : l.CellsApart p 1)
+/-- `deallocate(ptr)` of the `i`-th live allocation (a node), which is apart from the free cells and outside the list
+object -/
+theorem deallocate_spec (cfg : Cfg) {l : AnyList} {used : List Blk} {live : List (Nat × Nat)} {i p b : Nat}
+    (hS : l.SInv used live) (hi : live[i]? = some (p, b)) (hap : l.CellsApart p 1)
     (hout : OutObj l.obj p l.nodeSize) (hp0 : 0 < p) :
-    ∃ l', l.deallocate cfg p = .ok l' ∧ l'.cells.Perm (p :: l.cells) ∧ Same l l' := by
+    ∃ l', l.deallocate cfg p = .ok l' ∧ l'.cells.Perm (p :: l.cells) ∧ Same l l' ∧ l'.SInv used (live.eraseIdx i) := by
   cases l with
   | free fl =>
-    refine ⟨.free (fl.deallocate p), rfl, List.Perm.refl _, rfl, rfl, ?_⟩
+    refine ⟨.free (fl.deallocate p), rfl, List.Perm.refl _, ⟨rfl, rfl, fun _ => rfl⟩, ?_⟩
     simp only [SInv] at hS ⊢
     simp [FreeList.deallocate, hS]
   | ord ol =>
@@ -181,15 +243,24 @@ theorem deallocate_spec (cfg : Cfg) {l : AnyList} {p : Nat} (hS : l.SInv) (hap :
     have hrun : RunApart ol p 1 := hap
     have hout' : RunOut ol p 1 := OutObj.ord hS (by simpa [obj, nodeSize] using hout)
     obtain ⟨l', h1, h2, h3, h4, _, h6⟩ := OrdList.deallocate_run cfg ol hS p hrun hout' hp0
-    exact ⟨.ord l', by simp [deallocate, h1], h6, h3, by simp [obj, h4], h2⟩
-  | small sl => exact absurd hS (by simp [SInv])
+    exact ⟨.ord l', by simp [deallocate, h1], h6, ⟨h3, by simp [obj, h4], fun b => by simp [blockCells, h3]⟩, h2⟩
+  | small sl =>
+    simp only [SInv] at hS
+    have hap' : ∀ y ∈ sl.cells, y + sl.ns ≤ p ∨ p + sl.ns ≤ y := by
+      intro y hy
+      have := hap y hy
+      simpa [nodeSize] using this
+    obtain ⟨l', h1, h2, h3, h4, h5⟩ := SmallList.deallocate_spec cfg hS hi hap'
+    exact ⟨.small l', by simp [deallocate, h1], h2, ⟨h3, by simp [obj, h4], fun b => by simp [blockCells, h3]⟩, h5⟩
 
-/-- `deallocate(ptr, n)`, `n > node_size`, of a run that is apart from the free cells -/
-theorem deallocateBytes_spec (cfg : Cfg) {l : AnyList} {p n : Nat} (hS : l.SInv) (hpos : 0 < l.nodeSize)
+/-- `deallocate(ptr, n)`, `n > node_size`, of the `i`-th live allocation (an array) -/
+theorem deallocateBytes_spec (cfg : Cfg) {l : AnyList} {used : List Blk} {live : List (Nat × Nat)} {i p n : Nat}
+    (hS : l.SInv used live) (hi : live[i]? = some (p, n)) (hpos : 0 < l.nodeSize)
     (hn : l.nodeSize < n) (hap : l.CellsApart p (ceilNodes n l.nodeSize))
     (hout : OutObj l.obj p (ceilNodes n l.nodeSize * l.nodeSize)) (hp0 : 0 < p) :
     ∃ l', l.deallocateBytes cfg p n = .ok l' ∧
-      l'.cells.Perm (blockNodes p l.nodeSize (ceilNodes n l.nodeSize) ++ l.cells) ∧ Same l l' := by
+      l'.cells.Perm (blockNodes p l.nodeSize (ceilNodes n l.nodeSize) ++ l.cells) ∧ Same l l' ∧
+      l'.SInv used (live.eraseIdx i) := by
   cases l with
   | free fl =>
     simp only [nodeSize] at hn hpos
@@ -203,7 +274,7 @@ theorem deallocateBytes_spec (cfg : Cfg) {l : AnyList} {p n : Nat} (hS : l.SInv)
     rw [if_neg (by omega)]
     simp only [hk]
     rw [if_neg (by omega)]
-    refine ⟨_, rfl, List.Perm.refl _, rfl, rfl, ?_⟩
+    refine ⟨_, rfl, List.Perm.refl _, ⟨rfl, rfl, fun _ => rfl⟩, ?_⟩
     simp only [SInv] at hS ⊢
     simp [hS]; omega
   | ord ol =>
@@ -211,61 +282,83 @@ theorem deallocateBytes_spec (cfg : Cfg) {l : AnyList} {p n : Nat} (hS : l.SInv)
     simp only [nodeSize] at hn hpos hap hout
     have hout' : RunOut ol p (ceilNodes n ol.ns) := OutObj.ord hS (by simpa [obj] using hout)
     obtain ⟨l', h1, h2, h3, h4, _, h6⟩ := OrdList.deallocateBytes_run cfg ol hS p n hn hap hout' hp0
-    exact ⟨.ord l', by simp [deallocateBytes, h1], h6, h3, by simp [obj, h4], h2⟩
-  | small sl => exact absurd hS (by simp [SInv])
+    exact ⟨.ord l', by simp [deallocateBytes, h1], h6, ⟨h3, by simp [obj, h4], fun b => by simp [blockCells, h3]⟩, h2⟩
+  | small sl =>
+    -- the small list never hands out arrays: every live entry is one node
+    simp only [SInv] at hS
+    have := (hS.liveGrid (p, n) (List.mem_of_getElem? hi)).1
+    simp only [nodeSize] at hn
+    simp only at this
+    omega
 
-/-- `insert(mem, size)` of a range that is apart from the free cells: if it succeeds, the new cells are the
-`size / node_size` cells cut from `mem` -/
-theorem insert_spec (cfg : Cfg) {l l' : AnyList} {mem size : Nat} (hS : l.SInv) (hpos : 0 < l.nodeSize)
-    (hap : l.CellsApart mem (size / l.nodeSize)) (hout : OutObj l.obj mem (size / l.nodeSize * l.nodeSize))
-    (hm0 : 0 < mem) (h : l.insert cfg mem size = .ok l') :
-    l'.cells.Perm (blockNodes mem l.nodeSize (size / l.nodeSize) ++ l.cells) ∧ Same l l' := by
+/-- **`insert` of the usable part of a new block** `blk` (disjoint from the blocks in use, list object outside it):
+either it succeeds and adds exactly `blockCells blk`, or the block is too small for a single cell
+(`blockCells blk = []`; the code then divides the block into zero nodes: undefined behaviour). -/
+theorem insert_block (cfg : Cfg) {l : AnyList} {used : List Blk} {live : List (Nat × Nat)} {blk : Blk}
+    (hS : l.SInv used live) (hpos : 0 < l.nodeSize) (hbk : BlocksOk (blk :: used))
+    (hap : l.CellsApart blk.usable.base (blk.usable.size / l.nodeSize))
+    (hout : OutObj l.obj blk.usable.base blk.usable.size) :
+    (∃ l', l.insert cfg blk.usable.base blk.usable.size = .ok l' ∧ l'.cells.Perm (l.blockCells blk ++ l.cells) ∧
+        Same l l' ∧ l'.SInv (blk :: used) live) ∨
+      (l.blockCells blk = [] ∧ ∀ l', l.insert cfg blk.usable.base blk.usable.size ≠ .ok l') := by
+  have hw := hbk.1 blk (by simp)
+  unfold Blk.Wf at hw
+  have hm0 : 0 < blk.usable.base := by unfold Blk.usable; simp only; omega
   cases l with
   | free fl =>
-    simp only [insert, FreeList.insert, FreeList.insertImpl] at h
-    by_cases hk : size / fl.ns = 0
-    · simp [hk] at h
-    · rw [if_neg hk] at h
-      simp only [ListRes.ok.injEq] at h
-      subst h
-      refine ⟨List.Perm.refl _, rfl, rfl, ?_⟩
-      simp only [SInv] at hS ⊢
-      simp [hS]; omega
+    simp only [nodeSize] at hpos
+    by_cases hk : blk.usable.size / fl.ns = 0
+    · right
+      refine ⟨by simp [blockCells, hk, blockNodes], ?_⟩
+      intro l' h
+      simp [insert, FreeList.insert, FreeList.insertImpl, hk] at h
+    · left
+      refine ⟨.free { fl with nodes := blockNodes blk.usable.base fl.ns (blk.usable.size / fl.ns) ++ fl.nodes,
+                               cap := fl.cap + blk.usable.size / fl.ns }, ?_, List.Perm.refl _,
+        ⟨rfl, rfl, fun _ => rfl⟩, ?_⟩
+      · simp only [insert, FreeList.insert, FreeList.insertImpl]; rw [if_neg hk]
+      · simp only [SInv] at hS ⊢
+        simp [hS]; omega
   | ord ol =>
     simp only [SInv] at hS
-    simp only [nodeSize] at hpos hap hout
-    by_cases hk : 0 < size / ol.ns
-    · have hout' : RunOut ol mem (size / ol.ns) := OutObj.ord hS (by simpa [obj] using hout)
-      obtain ⟨l1, h1, h2, h3, h4, _, h6⟩ := OrdList.insert_run cfg ol hS mem size hk hap hout' hm0
-      simp only [insert, h1, ListRes.ok.injEq] at h
-      subst h
-      exact ⟨h6, h3, by simp [obj, h4], h2⟩
-    · have hk0 : size / ol.ns = 0 := Nat.eq_zero_of_not_pos hk
-      simp only [insert, OrdList.insert, OrdList.insertImpl, hk0, if_true] at h
-      cases h
-  | small sl => exact absurd hS (by simp [SInv])
-
-/-- `insert(mem, size)` of a range that is apart from the free cells never fails for another reason than "not even
-one node fits" (`size / node_size = 0`, where the code divides the block into zero nodes: undefined behaviour) -/
-theorem insert_total (cfg : Cfg) {l : AnyList} {mem size : Nat} (hS : l.SInv) (hpos : 0 < l.nodeSize)
-    (hap : l.CellsApart mem (size / l.nodeSize)) (hout : OutObj l.obj mem (size / l.nodeSize * l.nodeSize))
-    (hm0 : 0 < mem) : (∃ l', l.insert cfg mem size = .ok l') ∨ size / l.nodeSize = 0 := by
-  by_cases hk : size / l.nodeSize = 0
-  · exact Or.inr hk
-  · left
-    cases l with
-    | free fl =>
-      simp only [nodeSize] at hk
-      simp only [insert, FreeList.insert, FreeList.insertImpl]
-      rw [if_neg hk]
-      exact ⟨_, rfl⟩
-    | ord ol =>
-      simp only [SInv] at hS
-      simp only [nodeSize] at hpos hap hout hk
-      have hout' : RunOut ol mem (size / ol.ns) := OutObj.ord hS (by simpa [obj] using hout)
-      obtain ⟨l1, h1, _⟩ := OrdList.insert_run cfg ol hS mem size (Nat.pos_of_ne_zero hk) hap hout' hm0
-      exact ⟨.ord l1, by simp [insert, h1]⟩
-    | small sl => exact absurd hS (by simp [SInv])
+    simp only [nodeSize] at hpos hap
+    by_cases hk : blk.usable.size / ol.ns = 0
+    · right
+      refine ⟨by simp [blockCells, hk, blockNodes], ?_⟩
+      intro l' h
+      simp [insert, OrdList.insert, OrdList.insertImpl, hk] at h
+    · left
+      have hdiv := Nat.div_mul_le_self blk.usable.size ol.ns
+      have hout' : RunOut ol blk.usable.base (blk.usable.size / ol.ns) := by
+        apply OutObj.ord hS
+        simp only [obj, OutObj, ListObj.addr] at hout ⊢
+        omega
+      obtain ⟨l1, h1, h2, h3, h4, _, h6⟩ := OrdList.insert_run cfg ol hS blk.usable.base blk.usable.size
+        (Nat.pos_of_ne_zero hk) hap hout' hm0
+      exact ⟨.ord l1, by simp [insert, h1], h6, ⟨h3, by simp [obj, h4], fun b => by simp [blockCells, h3]⟩, h2⟩
+  | small sl =>
+    simp only [SInv] at hS
+    have hobj : blk.usable.base + blk.usable.size ≤ sl.P ∨ sl.P < blk.usable.base := by
+      simp only [obj, OutObj, ListObj.addr] at hout
+      omega
+    cases hins : sl.insert blk.usable.base blk.usable.size with
+    | none =>
+      right
+      refine ⟨?_, by intro l' h; simp [insert, hins] at h⟩
+      unfold SmallList.insert at hins
+      simp only [blockCells, smallBlockCells]
+      generalize smallInsertChunks sl.ns blk.usable.base blk.usable.size = r at hins ⊢
+      obtain ⟨cs, n⟩ := r
+      simp only at hins ⊢
+      split at hins
+      · rename_i he
+        have : cs = [] := by simpa using he
+        rw [this]; rfl
+      · cases hins
+    | some sl' =>
+      left
+      obtain ⟨h1, h2, h3, h4, _, _⟩ := SmallList.insert_spec hS hbk hobj hins
+      exact ⟨.small sl', by simp [insert, hins], h1, ⟨h2, by simp [obj, h3], fun b => by simp [blockCells, h2]⟩, h4⟩
 
 end AnyList
 end MemVerif.Model
